@@ -385,12 +385,14 @@ inline Op opRegMut(int r, const std::string& what) {   // what: px (x of point 0
         if (what == "rename") return !s.reg[r].pts.empty() && s.reg[r].pts[0].name != "Zr";
         if (what == "rename_held") return s.reg[r].pts.size() >= 2 && s.reg[r].pts[0].name != "Zh";
         if (what == "rename_set") return !s.reg[r].pts.empty() && s.reg[r].pts[0].name != "Zs";
+        if (what == "rename_after_lookup") return !s.reg[r].pts.empty() && s.reg[r].pts[0].name != "Zl";
         if (what == "px") return !s.reg[r].pts.empty() && s.reg[r].pts[0].v[0] != fbits(-555.5f);
         return !s.reg[r].subs.empty() && !s.reg[r].subs[0].empty() && s.reg[r].subs[0][0].v != fbits(-666.5f);
     };
     o.apply = [r, what](World& w, const WSnap&, CallInfo& ci) {
         ci.kind = K_REG_MUT; ci.reg = r;
         if (what == "rename") { w.R[r].points_nonConst().point_nonConst(0).name("Zr"); return; }
+        if (what == "rename_after_lookup") { Points& P = w.R[r].points_nonConst(); Point& kept = P.point_nonConst(0); try { (void)P.pointIdx(kept.name()); (void)P.pointIdx("nope"); } catch (const std::exception&) { } kept.name("Zl"); return; }   // reference taken, THEN searches by name (one successful, one failed), THEN the rename through the reference
         if (what == "rename_set") { Points& P = w.R[r].points_nonConst(); Point q = P.point(0); q.name("Zs"); P.point(q, 0); return; }   // renamed by putting a renamed copy back through the indexed setter
         if (what == "rename_held") {   // a reference to point 0 is taken, THEN point 1 is put back through the indexed setter, THEN point 0 is renamed through the reference kept from before
             Points& P = w.R[r].points_nonConst(); Point& kept = P.point_nonConst(0); Point again = P.point(1); P.point(again, 1); kept.name("Zh"); return; }
